@@ -172,14 +172,14 @@ theorem readUntilImageData_decP (t : TCfg) (r : R) (h : P r.dec) : P (readUntilI
       cases infoOf r' with
       | none => exact h1
       | some i =>
-        simp only
-        cases bppFromUsize (bytesPerPixel i.color i.depth) with
-        | none => exact h1
-        | some bpp =>
-          simp only [reserveBytes]
-          by_cases hl : r'.dec.limit ≥ outLineSize t i r'.flags (Sub.new i).width
-          · rw [if_pos hl]; exact hP.limit _ _ h1
-          · rw [if_neg hl]; exact h1
+        simp only [reserveBytes]
+        by_cases hl : r'.dec.limit ≥ outLineSize t i r'.flags (Sub.new i).width
+        · rw [if_pos hl]
+          simp only
+          cases bppFromUsize (bytesPerPixel i.color i.depth) with
+          | none => exact hP.limit _ _ h1
+          | some bpp => exact hP.limit _ _ h1
+        · rw [if_neg hl]; exact h1
 
 theorem nextRowImpl_decP (t : TCfg) (r : R) (rl ol : Nat) (h : P r.dec) : P (nextRowImpl cfg t r rl ol).1.dec := by
   rw [nextRowImpl_post, rowImplPost_dec]
